@@ -854,6 +854,11 @@ pub fn analyze(sc: &Scenario, out: &RunOut) -> Analysis {
                     Res::Err(e) => Some(e.clone()),
                     _ => None,
                 };
+                if let Some(E::Panic { model, payload }) = &got_err {
+                    if faults_in_cmd.is_empty() {
+                        viol!("unexpected_panic", "command #{} ({:?}) reported a panic of model {:?} that no script asked for: {}", i, cmd, model, payload);
+                    }
+                }
                 match &got_err {
                     Some(e) => {
                         // Normalise deadlock lists (order is unspecified).
